@@ -61,9 +61,10 @@ def good_streams(ctx, rng, n):
   return out
 
 
-def run_streams(ctx, wm, streams, budget, rng):
+def run_streams(ctx, wm, streams, budget, rng, with_res=False, with_pause=False):
   traces, origins = [], []
-  for proto, frames in streams:
+  for si, (proto, frames) in enumerate(streams):
+    res = (0, 0, 10, 0, 1)[si % 5] if with_res else 0
     n = sum(len(f['bytes']) for f in frames)
     if proto == 'udp':
       # datagram boundaries fall on line boundaries; batching of lines into datagrams is the choice
@@ -80,8 +81,10 @@ def run_streams(ctx, wm, streams, budget, rng):
       if tuple(cuts) in seen:
         continue
       seen.add(tuple(cuts))
-      traces.append(wiresys.execute(wm, proto, frames, cuts, None))
-      origins.append(dict(proto=proto, cuts=cuts, frames=[dict(kind=f['kind'], what=f.get('what', ''), hex=f['bytes'].hex()) for f in frames]))
+      ndp = sum(len(f['dps']) for f in frames)
+      pause_at = (len(traces) % ndp) + 1 if (with_pause and proto != 'udp' and ndp and len(traces) % 3 == 0) else 0
+      traces.append(wiresys.execute(wm, proto, frames, cuts, None, res=res, pause_at=pause_at))
+      origins.append(dict(proto=proto, cuts=cuts, MIN_TIMESTAMP_RESOLUTION=res, pause_during_datapoint=pause_at, frames=[dict(kind=f['kind'], what=f.get('what', ''), hex=f['bytes'].hex()) for f in frames]))
       ctx.evaluations += 1
   return traces, origins
 
@@ -108,7 +111,7 @@ def run(ctx):
   model(ctx)
   wm = wiresys.WireModules(ctx.scratch)
   streams = good_streams(ctx, ctx.rng, ctx.pick(24, 300))
-  traces, origins = run_streams(ctx, wm, streams, ctx.pick(90, 400), ctx.rng)
+  traces, origins = run_streams(ctx, wm, streams, ctx.pick(90, 400), ctx.rng, with_pause=True)
   verdicts = wiresys.judge(ctx, traces, 'C01 traces')
   report(ctx, traces, origins, verdicts, PROP)
   # negative control
